@@ -521,6 +521,8 @@ class World:
         from exabgp.bgp.fsm import FSM
 
         self.cfg = Configuration([self.config_text], text=True)
+        self._sources_list = None
+        self._config_sources()
         self.reactor = Reactor(self.cfg)
         os.chdir(self._cwd)
         os.umask(self._umask)
@@ -667,7 +669,31 @@ class World:
         self.reactor.signal.received = getattr(Signal, name)
 
     def set_config(self, text: str) -> None:
-        self.cfg._configurations[:] = [text]
+        self._config_sources()[:] = [text]
+
+    def _config_sources(self) -> list:
+        """The list of configuration sources (texts or file names) the Configuration re-reads on reload: the one-element
+        list given to its constructor, found by content if the attribute was renamed."""
+        srcs = getattr(self.cfg, '_configurations', None)
+        if isinstance(srcs, list):
+            return srcs
+        if getattr(self, '_sources_list', None) is not None:
+            return self._sources_list
+        for v in vars(self.cfg).values():
+            if isinstance(v, list) and len(v) == 1 and v[0] == self.config_text:
+                self._sources_list = v
+                return v
+        raise RuntimeError('the list of configuration sources was not found on the Configuration object')
+
+    def config_is_text(self, flag: bool) -> None:
+        """Switch the Configuration between "the sources are texts" and "the sources are file names"."""
+        if hasattr(self.cfg, '_text'):
+            self.cfg._text = flag
+            return
+        names = [k for k, v in vars(self.cfg).items() if isinstance(v, bool) and 'text' in k.lower()]
+        if len(names) != 1:
+            raise RuntimeError(f'the text/file switch of the Configuration object was not found ({names})')
+        setattr(self.cfg, names[0], flag)
 
     def incoming(self, local=('127.0.0.1', 179), remote=('127.0.0.2', 40000)) -> FakeSocket:
         s = FakeSocket(self, 'in', local=local, remote=remote)
